@@ -262,6 +262,13 @@ pub fn dec_prog(s: &str) -> Prog {
     p
 }
 
+/// decode one program from the head of `s`; returns it with the number of bytes consumed
+pub fn dec_prog_prefix(s: &str) -> (Prog, usize) {
+    let mut d = Dec { b: s.as_bytes(), i: 0 };
+    let p = d.prog();
+    (p, d.i)
+}
+
 // ------------------------------------------------------------------ generators
 
 pub fn gen_name(r: &mut Rng) -> &'static str { *r.pick(NAMES) }
